@@ -12,7 +12,7 @@ use crate::xmlcodec::*;
 use serde_json::json;
 
 #[derive(Debug, Clone)]
-struct Elem {
+pub struct Elem {
     name: String,
     /// whole element [start, end)
     span: (usize, usize),
@@ -26,7 +26,7 @@ struct Elem {
 }
 
 #[derive(Debug, Clone)]
-struct Attr {
+pub struct Attr {
     name: String,
     /// whole attribute `name="value"` (without the blank before it)
     span: (usize, usize),
@@ -35,7 +35,7 @@ struct Attr {
 }
 
 /// R5: well-formedness + element structure via xmlparser. Err = not well-formed.
-fn parse_tree(doc: &str) -> Result<Vec<Elem>, String> {
+pub fn parse_tree(doc: &str) -> Result<Vec<Elem>, String> {
     let mut out: Vec<Elem> = Vec::new();
     let mut stack: Vec<usize> = Vec::new();
     let mut roots = 0;
@@ -119,10 +119,12 @@ pub fn well_formed(doc: &str) -> Result<String, String> {
     t.iter().find(|e| e.depth == 0).map(|e| e.name.clone()).ok_or_else(|| "no root".to_owned())
 }
 
-struct Mutant {
-    kind: &'static str,
-    label: String,
-    doc: Vec<u8>,
+pub struct Mutant {
+    pub kind: &'static str,
+    pub label: String,
+    pub doc: Vec<u8>,
+    /// for a mutant that removes something from a *copy*: the same document with the copy left intact
+    pub twin: Option<Vec<u8>>,
 }
 
 fn splice(doc: &str, range: (usize, usize), with: &str) -> Vec<u8> {
@@ -133,18 +135,18 @@ fn splice(doc: &str, range: (usize, usize), with: &str) -> Vec<u8> {
     v
 }
 
-fn mutants(doc: &str, tree: &[Elem]) -> Vec<Mutant> {
+pub fn mutants(doc: &str, tree: &[Elem]) -> Vec<Mutant> {
     let mut m = Vec::new();
     // truncation at every offset
     for i in 0..doc.len() {
         if doc.is_char_boundary(i) {
-            m.push(Mutant { kind: "truncate", label: format!("truncate@{i}"), doc: doc.as_bytes()[..i].to_vec() });
+            m.push(Mutant { kind: "truncate", label: format!("truncate@{i}"), doc: doc.as_bytes()[..i].to_vec(), twin: None });
         }
     }
-    m.push(Mutant { kind: "second-root", label: "second-root".into(), doc: format!("{doc}<Extra></Extra>").into_bytes() });
-    m.push(Mutant { kind: "second-root", label: "root-repeated".into(), doc: { let r = &tree[0]; format!("{doc}{}", &doc[r.span.0..r.span.1]).into_bytes() } });
-    m.push(Mutant { kind: "trailing-text", label: "trailing-text".into(), doc: format!("{doc}trailing").into_bytes() });
-    m.push(Mutant { kind: "leading-text", label: "leading-text".into(), doc: { let r = &tree[0]; splice(doc, (r.span.0, r.span.0), "leading") } });
+    m.push(Mutant { kind: "second-root", label: "second-root".into(), doc: format!("{doc}<Extra></Extra>").into_bytes(), twin: None });
+    m.push(Mutant { kind: "second-root", label: "root-repeated".into(), doc: { let r = &tree[0]; format!("{doc}{}", &doc[r.span.0..r.span.1]).into_bytes() }, twin: None });
+    m.push(Mutant { kind: "trailing-text", label: "trailing-text".into(), doc: format!("{doc}trailing").into_bytes(), twin: None });
+    m.push(Mutant { kind: "leading-text", label: "leading-text".into(), doc: { let r = &tree[0]; splice(doc, (r.span.0, r.span.0), "leading") }, twin: None });
     for (ei, e) in tree.iter().enumerate() {
         let whole = &doc[e.span.0..e.span.1];
         if e.depth > 0 {
@@ -152,49 +154,65 @@ fn mutants(doc: &str, tree: &[Elem]) -> Vec<Mutant> {
             let start_tag = &doc[e.span.0..e.inner.0];
             let renamed_start = start_tag.replacen(&e.name, "Xq9", 1);
             let renamed = if e.inner.0 == e.span.1 { renamed_start } else { format!("{renamed_start}{}</Xq9>", &doc[e.inner.0..e.inner.1]) };
-            m.push(Mutant { kind: "rename-element", label: format!("rename#{ei}<{}>", e.name), doc: splice(doc, e.span, &renamed) });
-            m.push(Mutant { kind: "duplicate-element", label: format!("duplicate#{ei}<{}>", e.name), doc: splice(doc, (e.span.1, e.span.1), whole) });
-            m.push(Mutant { kind: "delete-element", label: format!("delete#{ei}<{}>", e.name), doc: splice(doc, e.span, "") });
+            m.push(Mutant { kind: "rename-element", label: format!("rename#{ei}<{}>", e.name), doc: splice(doc, e.span, &renamed), twin: None });
+            m.push(Mutant { kind: "duplicate-element", label: format!("duplicate#{ei}<{}>", e.name), doc: splice(doc, (e.span.1, e.span.1), whole), twin: None });
+            m.push(Mutant { kind: "delete-element", label: format!("delete#{ei}<{}>", e.name), doc: splice(doc, e.span, ""), twin: None });
             // reorder with the next sibling
             if let Some(next) = tree.iter().skip(ei + 1).find(|n| n.depth == e.depth && n.span.0 >= e.span.1) {
                 let parent_end = tree[..ei].iter().rev().find(|p| p.depth + 1 == e.depth).map_or(doc.len(), |p| p.inner.1);
                 if next.span.1 <= parent_end && doc[e.span.1..next.span.0].trim().is_empty() {
                     let swapped = format!("{}{}{}", &doc[next.span.0..next.span.1], &doc[e.span.1..next.span.0], whole);
-                    m.push(Mutant { kind: "reorder-siblings", label: format!("swap#{ei}<{}><{}>", e.name, next.name), doc: splice(doc, (e.span.0, next.span.1), &swapped) });
+                    m.push(Mutant { kind: "reorder-siblings", label: format!("swap#{ei}<{}><{}>", e.name, next.name), doc: splice(doc, (e.span.0, next.span.1), &swapped), twin: None });
                 }
             }
             // unknown child inserted
             if e.inner.0 != e.span.1 {
-                m.push(Mutant { kind: "unknown-child", label: format!("unknown-child-in#{ei}<{}>", e.name), doc: splice(doc, (e.inner.0, e.inner.0), "<Xq9>1</Xq9>") });
+                m.push(Mutant { kind: "unknown-child", label: format!("unknown-child-in#{ei}<{}>", e.name), doc: splice(doc, (e.inner.0, e.inner.0), "<Xq9>1</Xq9>"), twin: None });
             }
         } else {
-            m.push(Mutant { kind: "rename-root", label: "rename-root".into(), doc: doc.replace(&format!("<{}", e.name), "<Xq9").replace(&format!("</{}>", e.name), "</Xq9>").into_bytes() });
-            m.push(Mutant { kind: "unknown-child", label: "unknown-child-in-root".into(), doc: splice(doc, (e.inner.0, e.inner.0), "<Xq9>1</Xq9>") });
+            m.push(Mutant { kind: "rename-root", label: "rename-root".into(), doc: doc.replace(&format!("<{}", e.name), "<Xq9").replace(&format!("</{}>", e.name), "</Xq9>").into_bytes(), twin: None });
+            m.push(Mutant { kind: "unknown-child", label: "unknown-child-in-root".into(), doc: splice(doc, (e.inner.0, e.inner.0), "<Xq9>1</Xq9>"), twin: None });
         }
         // attributes of the start tag
         for (ai, at) in e.attrs.iter().enumerate() {
             let whole = &doc[at.span.0..at.span.1];
             let val = &doc[at.value.0..at.value.1];
             let is_ns = at.name == "xmlns" || at.name.starts_with("xmlns:");
-            m.push(Mutant { kind: "attr-duplicate", label: format!("attr-duplicate#{ei}<{} {}>", e.name, at.name), doc: splice(doc, (at.span.1, at.span.1), &format!(" {whole}")) });
+            m.push(Mutant { kind: "attr-duplicate", label: format!("attr-duplicate#{ei}<{} {}>", e.name, at.name), doc: splice(doc, (at.span.1, at.span.1), &format!(" {whole}")), twin: None });
             if !val.contains('\'') {
-                m.push(Mutant { kind: "attr-quote-style", label: format!("attr-quote#{ei}<{} {}>", e.name, at.name), doc: splice(doc, at.span, &format!("{}='{val}'", at.name)) });
+                m.push(Mutant { kind: "attr-quote-style", label: format!("attr-quote#{ei}<{} {}>", e.name, at.name), doc: splice(doc, at.span, &format!("{}='{val}'", at.name)), twin: None });
             }
-            m.push(Mutant { kind: "attr-blanks", label: format!("attr-blanks#{ei}<{} {}>", e.name, at.name), doc: splice(doc, at.span, &format!("{} = \"{val}\"", at.name)) });
+            m.push(Mutant { kind: "attr-blanks", label: format!("attr-blanks#{ei}<{} {}>", e.name, at.name), doc: splice(doc, at.span, &format!("{} = \"{val}\"", at.name)), twin: None });
             if ai + 1 < e.attrs.len() {
                 let nx = &e.attrs[ai + 1];
                 let swapped = format!("{}{}{}", &doc[nx.span.0..nx.span.1], &doc[at.span.1..nx.span.0], whole);
-                m.push(Mutant { kind: "attr-reorder", label: format!("attr-reorder#{ei}<{} {}>", e.name, at.name), doc: splice(doc, (at.span.0, nx.span.1), &swapped) });
+                m.push(Mutant { kind: "attr-reorder", label: format!("attr-reorder#{ei}<{} {}>", e.name, at.name), doc: splice(doc, (at.span.0, nx.span.1), &swapped), twin: None });
             }
             if !is_ns {
                 if let Some(c) = val.chars().next() {
                     if c != '&' {
-                        m.push(Mutant { kind: "attr-char-ref", label: format!("attr-charref#{ei}<{} {}>", e.name, at.name), doc: splice(doc, at.value, &format!("&#{};{}", c as u32, &val[c.len_utf8()..])) });
+                        m.push(Mutant { kind: "attr-char-ref", label: format!("attr-charref#{ei}<{} {}>", e.name, at.name), doc: splice(doc, at.value, &format!("&#{};{}", c as u32, &val[c.len_utf8()..])), twin: None });
                     }
                 }
                 // the blank before the attribute goes with it
-                m.push(Mutant { kind: "attr-remove", label: format!("attr-remove#{ei}<{} {}>", e.name, at.name), doc: splice(doc, (at.span.0 - 1, at.span.1), "") });
-                m.push(Mutant { kind: "attr-suffix", label: format!("attr-suffix#{ei}<{} {}>", e.name, at.name), doc: splice(doc, (at.value.1, at.value.1), "abc") });
+                m.push(Mutant { kind: "attr-remove", label: format!("attr-remove#{ei}<{} {}>", e.name, at.name), doc: splice(doc, (at.span.0 - 1, at.span.1), ""), twin: None });
+                m.push(Mutant { kind: "attr-suffix", label: format!("attr-suffix#{ei}<{} {}>", e.name, at.name), doc: splice(doc, (at.value.1, at.value.1), "abc"), twin: None });
+            }
+        }
+        // an attribute that is missing in a *later* copy of an enclosing element (the earlier copy still has it): what is
+        // required of the first occurrence is required of every occurrence
+        for at in e.attrs.iter().filter(|a| a.name != "xmlns" && !a.name.starts_with("xmlns:")) {
+            for anc in tree[..ei].iter().filter(|a| a.depth > 0 && a.span.0 <= e.span.0 && e.span.1 <= a.span.1) {
+                let copy = &doc[anc.span.0..anc.span.1];
+                let rel = (at.span.0 - 1 - anc.span.0, at.span.1 - anc.span.0);
+                let stripped = format!("{}{}", &copy[..rel.0], &copy[rel.1..]);
+                m.push(Mutant { kind: "attr-missing-in-a-later-copy", label: format!("attr-missing-in-later-copy#{ei}<{} {}>-of<{}>", e.name, at.name, anc.name), doc: splice(doc, (anc.span.1, anc.span.1), &stripped), twin: Some(splice(doc, (anc.span.1, anc.span.1), copy)) });
+                // ... and the later copy's element without any attribute at all (its start tag is then bare)
+                if let (Some(first), Some(last)) = (e.attrs.first(), e.attrs.last()) {
+                    let rel = (first.span.0 - 1 - anc.span.0, last.span.1 - anc.span.0);
+                    let bare = format!("{}{}", &copy[..rel.0], &copy[rel.1..]);
+                    m.push(Mutant { kind: "attr-missing-in-a-later-copy", label: format!("attr-missing-in-later-copy#{ei}<{} {}>-of<{}>(start tag bare)", e.name, at.name, anc.name), doc: splice(doc, (anc.span.1, anc.span.1), &bare), twin: Some(splice(doc, (anc.span.1, anc.span.1), copy)) });
+                }
             }
         }
         // text nodes of leaf elements
@@ -206,29 +224,29 @@ fn mutants(doc: &str, tree: &[Elem]) -> Vec<Mutant> {
             }
             // meaning-preserving rewrites
             if !raw.contains('&') && !raw.contains("]]>") {
-                m.push(Mutant { kind: "cdata", label: format!("cdata#{ei}<{}>", e.name), doc: splice(doc, (ts, te), &format!("<![CDATA[{raw}]]>")) });
+                m.push(Mutant { kind: "cdata", label: format!("cdata#{ei}<{}>", e.name), doc: splice(doc, (ts, te), &format!("<![CDATA[{raw}]]>")), twin: None });
                 if raw.chars().count() >= 2 {
                     let cut = raw.char_indices().nth(1).map(|x| x.0).unwrap_or(1);
-                    m.push(Mutant { kind: "cdata-partial", label: format!("cdata-partial#{ei}<{}>", e.name), doc: splice(doc, (ts, te), &format!("{}<![CDATA[{}]]>", &raw[..cut], &raw[cut..])) });
+                    m.push(Mutant { kind: "cdata-partial", label: format!("cdata-partial#{ei}<{}>", e.name), doc: splice(doc, (ts, te), &format!("{}<![CDATA[{}]]>", &raw[..cut], &raw[cut..])), twin: None });
                 }
             }
             {
                 // split by a comment at a position that is not inside an entity reference
                 let pos = raw.char_indices().map(|x| x.0).skip(1).find(|&p| !raw[..p].rsplit(';').next().unwrap_or("").contains('&'));
                 if let Some(p) = pos {
-                    m.push(Mutant { kind: "comment-split", label: format!("comment#{ei}<{}>", e.name), doc: splice(doc, (ts, te), &format!("{}<!--c-->{}", &raw[..p], &raw[p..])) });
-                    m.push(Mutant { kind: "pi-split", label: format!("pi#{ei}<{}>", e.name), doc: splice(doc, (ts, te), &format!("{}<?p i?>{}", &raw[..p], &raw[p..])) });
+                    m.push(Mutant { kind: "comment-split", label: format!("comment#{ei}<{}>", e.name), doc: splice(doc, (ts, te), &format!("{}<!--c-->{}", &raw[..p], &raw[p..])), twin: None });
+                    m.push(Mutant { kind: "pi-split", label: format!("pi#{ei}<{}>", e.name), doc: splice(doc, (ts, te), &format!("{}<?p i?>{}", &raw[..p], &raw[p..])), twin: None });
                 }
             }
             if let Some(c) = raw.chars().next() {
                 if c != '&' {
                     let rest = &raw[c.len_utf8()..];
-                    m.push(Mutant { kind: "numeric-char-ref", label: format!("charref#{ei}<{}>", e.name), doc: splice(doc, (ts, te), &format!("&#{};{rest}", c as u32)) });
-                    m.push(Mutant { kind: "hex-char-ref", label: format!("hexref#{ei}<{}>", e.name), doc: splice(doc, (ts, te), &format!("&#x{:X};{rest}", c as u32)) });
+                    m.push(Mutant { kind: "numeric-char-ref", label: format!("charref#{ei}<{}>", e.name), doc: splice(doc, (ts, te), &format!("&#{};{rest}", c as u32)), twin: None });
+                    m.push(Mutant { kind: "hex-char-ref", label: format!("hexref#{ei}<{}>", e.name), doc: splice(doc, (ts, te), &format!("&#x{:X};{rest}", c as u32)), twin: None });
                 }
             }
             // scalar perturbation: a value that is not of a number/boolean/timestamp/enum type
-            m.push(Mutant { kind: "scalar-suffix", label: format!("suffix#{ei}<{}>", e.name), doc: splice(doc, (te, te), "abc") });
+            m.push(Mutant { kind: "scalar-suffix", label: format!("suffix#{ei}<{}>", e.name), doc: splice(doc, (te, te), "abc"), twin: None });
         }
     }
     m
@@ -357,6 +375,20 @@ fn judge_mutants(a: &mut Acc, order: u64, d: &dyn XmlDriver, which: &str, alts: 
                 a.nontrivial(fnv(id().as_bytes()));
                 a.outcome(&format!("{}: VALUE CHANGED", mu.kind));
                 a.fail("C13/meaning/attribute-spelling-changes-the-value", order, id(), format!("{mtext:?} has the same XML meaning as the original but decodes to {got} instead of {want}"), json!({"type": d.name(), "document": mtext}));
+            }
+            (Decoded::Same | Decoded::Differs { .. }, "attr-missing-in-a-later-copy") => {
+                // judged only where the attribute is required at all: removing it from the original occurrence is refused
+                let required = {
+                    let plain = mutants(doc, &tree).into_iter().find(|x| x.kind == "attr-remove" && mu.label.contains(&x.label["attr-remove".len()..]));
+                    plain.is_some_and(|x| matches!(d.decode_compare(alts, &x.doc), Decoded::Refused(_)))
+                };
+                if required {
+                    a.nontrivial(fnv(id().as_bytes()));
+                    a.outcome("attr-missing-in-a-later-copy: ACCEPTED");
+                    a.fail("C13/strictness/required-attribute-taken-from-an-earlier-element", order, id(), format!("{} accepted {mtext:?}: the second copy lacks a required attribute (the same document with the attribute removed from the only occurrence is refused)", d.name()), json!({"type": d.name()}));
+                } else {
+                    a.outcome("attr-missing-in-a-later-copy: accepted (the attribute is not required)");
+                }
             }
             (Decoded::Same, "attr-remove") => {
                 a.nontrivial(fnv(id().as_bytes()));
@@ -503,7 +535,8 @@ pub fn run(ctx: &Ctx) -> (Acc, Report) {
         }
         // (2) E5 on the encoded base and on a populated value
         let populated: Vec<usize> = labels.iter().enumerate().filter(|(_, l)| l.ends_with("=Some(base)") && l.matches('.').count() <= 2).map(|(i, _)| i).collect();
-        for (which, alts) in [("base", vec![]), ("populated", populated)] {
+        let full: Vec<usize> = labels.iter().position(|l| l == FULL).into_iter().collect();
+        for (which, alts) in [("base", vec![]), ("populated", populated), ("full", full)] {
             if let Ok(doc) = d.encode(&alts) {
                 let text = String::from_utf8_lossy(&doc).into_owned();
                 if matches!(d.decode_compare(&alts, &doc), Decoded::Same) {
@@ -515,7 +548,7 @@ pub fn run(ctx: &Ctx) -> (Acc, Report) {
     });
     let rep = Report {
         level: "exploration",
-        rule: format!("{n_types} types ({XML_ROOT_TYPES} root, {XML_CONTENT_TYPES} content) with both an encoder and a decoder: base value and every single-member deviation to nesting depth 6 over the XML text alphabet (empty, edge blanks, markup characters, ]]>, non-ASCII, tab/newline, CR, U+0085, U+FFFD), integers 0/-1/max, booleans, timestamps, first/last/unknown enum constants, 1- and 2-item lists (thorough: pairs) -> encode -> well-formed (xmlparser) and decode == value; on the encoded base and a populated value of each type every instance of: truncation at every offset, rename / duplicate / delete of each element, swap of adjacent siblings, unknown child, second root, text outside the root, CDATA / partial CDATA / comment / PI / decimal and hex character reference rewrites of each text node, 'abc' appended to each text node, attribute duplication / quote style / blanks / order / character reference / removal / suffix; and the same family again on three other spellings of each document (empty elements self-closed, indented with line breaks between elements, comments and a PI around and inside the root), each spelling itself being judged as a meaning-preserving rewrite. Differential oracles. Distinct by id."),
+        rule: format!("{n_types} types ({XML_ROOT_TYPES} root, {XML_CONTENT_TYPES} content) with both an encoder and a decoder: base value and every single-member deviation to nesting depth 6 over the XML text alphabet (empty, edge blanks, markup characters, ]]>, non-ASCII, tab/newline, CR, U+0085, U+FFFD), integers 0/-1/max, booleans, timestamps, first/last/unknown enum constants, 1- and 2-item lists (thorough: pairs) -> encode -> well-formed (xmlparser) and decode == value; on the encoded base, a populated value and the fully populated value (every member present at every level, lists of two) of each type every instance of: truncation at every offset, rename / duplicate / delete of each element, swap of adjacent siblings, unknown child, second root, text outside the root, CDATA / partial CDATA / comment / PI / decimal and hex character reference rewrites of each text node, 'abc' appended to each text node, attribute duplication / quote style / blanks / order / character reference / removal / suffix; and the same family again on three other spellings of each document (empty elements self-closed, indented with line breaks between elements, comments and a PI around and inside the root), each spelling itself being judged as a meaning-preserving rewrite. Differential oracles. Distinct by id."),
         exhaustive: true,
         extra: json!({"types": n_types, "encode_only_root_types_not_covered_here(decoded by the SDK in C03)": XML_ENCODE_ONLY_ROOTS, "content_types_with_attribute_members(no stand-alone encoding; covered through Grant, TargetGrant and the roots containing them)": XML_ATTRIBUTE_BEARING_CONTENT_TYPES}),
         assumptions: vec!["decoding by an independent S3 client is C02/C03's half (aws-sdk-s3); here the independent party is the xmlparser tokenizer".into(), "member order inside a structure is not part of the statement: reorderings are recorded only".into()],
